@@ -292,7 +292,7 @@ class Gen:
         rng = self.rng
         self.hostile += 1
         nid = self.a_node()
-        which = rng.randrange(6)
+        which = rng.randrange(7)
         if which == 0:  # bad payload for the sub-type's rule
             cmd = rng.choice([1, 3, 0, 2])
             smax = tables.sub_max(self.version, cmd)
@@ -319,6 +319,13 @@ class Gen:
                 self.emit_line(f"{nid};{rng.choice([0, 1, 254])};{rng.choice([3, 4])};0;{rng.choice([0, 6, 11])};5")
         elif which == 4:  # bad ack
             self.emit_line(f"{nid};1;1;{rng.choice([2, -1, 9])};0;1")
+        elif which == 5 and nid in self.model.nodes and self.known_child(nid) is not None:
+            # two frames run together on a noisy link: more than six fields, for a free-text sub-type of a known child
+            cid = self.known_child(nid)
+            sub = rng.choice([24, 25, 26, 27, 28, 0, 1] + ([47] if self.v2 else []))
+            self.emit_line(f"{nid};{cid};1;0;{sub};on;{nid};{cid};1;0")
+            if rng.random() < 0.7:
+                self.emit_line(f"{nid};{cid};2;0;{sub};")
         else:  # bad command
             self.emit_line(f"{nid};1;{rng.choice([5, 6, -1, 9])};0;0;1")
 
@@ -385,6 +392,10 @@ class Gen:
         elif form < 5:
             vtype = ["enum", sub]
         kw = {"ack": 1} if rng.random() < 0.15 else {}
+        if rng.random() < 0.06 and rule == "text":
+            # the rarely used msg_type keyword: poll a value (a req carries no payload)
+            kw = {"msg_type": 2}
+            value = ""
         self.ops.append(["set", nid, cid, vtype, value, kw])
         action, _exp = self.model.set_child_value_plan(nid, cid, sub, value)
         if action == "store" and tables.valid_frame(self.version, nid, cid, 1, 0, sub, str(value)):
@@ -408,7 +419,11 @@ class Gen:
         image_hex = None
         via = "bin"
         form = rng.randrange(10)
-        if form < 6 or not self.fw_keys:
+        if form < 6 and rng.random() < 0.08:
+            # a HEX file that encodes no data at all (only the end-of-file record): not a firmware
+            image_hex = ""
+            via = "hex"
+        elif form < 6 or not self.fw_keys:
             ln = rng.choice([1, 15, 16, 17, 127, 128, 129, 255, 256, 257]) if rng.random() < 0.7 else rng.randint(1, self.image_max)
             ln = min(ln, self.image_max)
             fill = rng.randrange(4)
@@ -432,6 +447,8 @@ class Gen:
         except ValueError:
             return
         image = bytes.fromhex(image_hex) if image_hex is not None else None
+        if image == b"":
+            return  # nothing loadable: no firmware, no session
         done = self.model.ota.schedule(self.model.nodes, nids if not isinstance(nids, list) else list(nids), ti, vi, image)
         if image is not None and (ti, vi) not in self.fw_keys:
             self.fw_keys.append((ti, vi))
